@@ -774,9 +774,11 @@ fn do_simple(cx: &mut Ctx, g: &SG, model: bool, special_key: Option<&str>) -> Op
         Ok(Err(_)) => cx.st.count("simple.validation_error"),
         Ok(Ok(bytes)) => {
             cx.st.count(if accept { "simple.accepted" } else { "simple.unexpectedly_accepted" });
-            if accept {
+            // whatever the writer accepts must read back as written (also glyphs this harness expected
+            // it to refuse)
+            {
                 if let Some(why) = oracle_simple_bytes(g, bytes) {
-                    cx.fail(key.clone(), "decode(encode(simple glyph)) != glyph", json!({"why": why, "glyph": format!("{:?}", g).chars().take(600).collect::<String>()}));
+                    cx.fail(key.clone(), "decode(encode(simple glyph)) != glyph", json!({"why": why, "expected_to_be_accepted": accept, "glyph": format!("{:?}", g).chars().take(600).collect::<String>()}));
                 }
                 let canon = canonical_len(g);
                 if bytes.len() > canon {
@@ -1431,6 +1433,109 @@ fn ref_contour_path(c: &[Pt], harfbuzz: bool, out: &mut Vec<i128>) {
     }
     out.push(3);
 }
+// ---------- drawing must not depend on the memory it is given ----------
+/// pen stream as raw words: tag, then the f32 bit patterns
+#[derive(Default)]
+struct RawPen(Vec<u32>);
+impl skrifa::outline::OutlinePen for RawPen {
+    fn move_to(&mut self, x: f32, y: f32) {
+        self.0.extend([0, x.to_bits(), y.to_bits()]);
+    }
+    fn line_to(&mut self, x: f32, y: f32) {
+        self.0.extend([1, x.to_bits(), y.to_bits()]);
+    }
+    fn quad_to(&mut self, a: f32, b: f32, x: f32, y: f32) {
+        self.0.extend([2, a.to_bits(), b.to_bits(), x.to_bits(), y.to_bits()]);
+    }
+    fn curve_to(&mut self, a: f32, b: f32, c: f32, d: f32, x: f32, y: f32) {
+        self.0.extend([4, a.to_bits(), b.to_bits(), c.to_bits(), d.to_bits(), x.to_bits(), y.to_bits()]);
+    }
+    fn close(&mut self) {
+        self.0.push(3);
+    }
+}
+fn draw_raw(font: &FontRef, gid: u32, hb: bool, ppem: Option<f32>, mem: Option<&mut [u8]>) -> Result<Vec<u32>, String> {
+    use skrifa::instance::{LocationRef, Size};
+    use skrifa::outline::{pen::PathStyle, DrawSettings};
+    use skrifa::MetadataProvider;
+    let g = font.outline_glyphs().get(GlyphId::new(gid)).ok_or("no outline glyph")?;
+    let size = match ppem {
+        Some(p) => Size::new(p),
+        None => Size::unscaled(),
+    };
+    let style = if hb { PathStyle::HarfBuzz } else { PathStyle::FreeType };
+    let mut pen = RawPen::default();
+    g.draw(DrawSettings::unhinted(size, LocationRef::default()).with_path_style(style).with_memory(mem), &mut pen)
+        .map_err(|e| format!("{e:?}"))?;
+    Ok(pen.0)
+}
+/// Every glyph of the font, in both path styles, unscaled and at two ppem: the pen stream obtained with
+/// internally allocated memory must be reproduced bit for bit with a caller-provided buffer that is
+/// (a) filled with random garbage, (b) reused, uncleared, from the draws of the other glyphs (largest
+/// first, then in id order). Returns the number of comparisons made.
+fn check_memory_independence(cx: &mut Ctx, font_bytes: &[u8], n_glyphs: u32, seed: u64, key: &str) {
+    use skrifa::outline::Hinting;
+    use skrifa::MetadataProvider;
+    let fb = font_bytes.to_vec();
+    let r = catch(move || -> Result<u64, String> {
+        let font = FontRef::new(&fb).map_err(|e| format!("{e:?}"))?;
+        let mut rng = Rng::new(seed);
+        let sizes: Vec<usize> = (0..n_glyphs)
+            .map(|g| font.outline_glyphs().get(GlyphId::new(g)).map(|o| o.draw_memory_size(Hinting::None)).unwrap_or(0))
+            .collect();
+        let max = sizes.iter().copied().max().unwrap_or(0) + 64;
+        let mut n = 0u64;
+        for hb in [false, true] {
+            for ppem in [None, Some(16.0f32), Some(37.5)] {
+                let fresh: Vec<Result<Vec<u32>, String>> = (0..n_glyphs).map(|g| draw_raw(&font, g, hb, ppem, None)).collect();
+                // (a) exactly-sized garbage buffer per glyph
+                for g in 0..n_glyphs {
+                    let extra = (rng.below(3) * 8) as usize;
+                    let mut buf = rng.bytes(sizes[g as usize] + extra);
+                    let got = draw_raw(&font, g, hb, ppem, Some(&mut buf));
+                    n += 1;
+                    if got != fresh[g as usize] {
+                        return Err(format!("glyph {g} hb={hb} ppem={ppem:?}: garbage-filled caller memory gives {:?}, fresh memory {:?}", got, fresh[g as usize]));
+                    }
+                }
+                // (b) one buffer reused without clearing: largest glyph first, then every glyph in order, twice
+                let mut shared = rng.bytes(max);
+                let mut order: Vec<u32> = (0..n_glyphs).collect();
+                order.sort_by_key(|g| std::cmp::Reverse(sizes[*g as usize]));
+                order.extend(0..n_glyphs);
+                order.extend((0..n_glyphs).rev());
+                for g in order {
+                    let got = draw_raw(&font, g, hb, ppem, Some(&mut shared[..]));
+                    n += 1;
+                    if got != fresh[g as usize] {
+                        return Err(format!("glyph {g} hb={hb} ppem={ppem:?}: reused caller memory gives {:?}, fresh memory {:?}", got, fresh[g as usize]));
+                    }
+                }
+            }
+        }
+        Ok(n)
+    });
+    match r {
+        Ok(Ok(n)) => {
+            cx.st.evaluations += n;
+            cx.st.add("drawmem.comparisons", n);
+        }
+        Ok(Err(e)) => cx.fail(format!("drawmem-{}", key), "drawing depends on the contents of the memory buffer it is given", json!({"why": e})),
+        Err(p) => cx.fail(format!("drawmem-{}", key), "drawing with caller-provided memory panicked", json!({"panic": p})),
+    }
+}
+/// a larger companion glyph (many points, coordinates in the hundreds, lsb far from xMin) so that reused
+/// buffers hold stale, non-zero point and phantom data
+fn companion_glyph(seed: u64) -> SG {
+    let mut rng = Rng::new(seed);
+    let n = rng.range(24, 40) as usize;
+    let pts: Vec<Pt> = (0..n).map(|_| (rng.range(-900, 900) as i16, rng.range(-900, 900) as i16, rng.chance(1, 2))).collect();
+    let xmin = pts.iter().map(|p| p.0).min().unwrap();
+    let ymin = pts.iter().map(|p| p.1).min().unwrap();
+    let xmax = pts.iter().map(|p| p.0).max().unwrap();
+    let ymax = pts.iter().map(|p| p.1).max().unwrap();
+    SG { bbox: [xmin, ymin, xmax, ymax], contours: vec![pts], instr: vec![] }
+}
 fn gen_point_contours(rng: &mut Rng) -> Vec<Vec<Pt>> {
     let nc = rng.range(1, 4) as usize;
     let mut out = vec![];
@@ -1480,7 +1585,7 @@ fn gen_point_contours(rng: &mut Rng) -> Vec<Vec<Pt>> {
 }
 /// kind 6: contours (point lists) -> SimpleGlyph -> GlyfLocaBuilder -> FontBuilder font -> skrifa
 /// unscaled draw in the given path style; the pen stream goes to the model and to the reference.
-fn do_draw_points(cx: &mut Ctx, contours: &[Vec<Pt>], model: bool) {
+fn do_draw_points(cx: &mut Ctx, contours: &[Vec<Pt>], shift: i16, model: bool) {
     use skrifa::instance::{LocationRef, Size};
     use skrifa::outline::{DrawSettings, pen::PathStyle};
     use skrifa::MetadataProvider;
@@ -1493,10 +1598,15 @@ fn do_draw_points(cx: &mut Ctx, contours: &[Vec<Pt>], model: bool) {
         let mut b = GlyfLocaBuilder::new();
         b.add_glyph(&Glyph::Empty).map_err(|e| format!("{e:?}"))?;
         b.add_glyph(&to_simple(&g2)).map_err(|e| format!("{e:?}"))?;
+        let comp = companion_glyph(fnv(format!("{:?}", g2).as_bytes()));
+        b.add_glyph(&to_simple(&comp)).map_err(|e| format!("{e:?}"))?;
         let (glyf, loca, fmt) = b.build();
-        Ok(minimal_font(&write_fonts::dump_table(&glyf).unwrap(), &write_fonts::dump_table(&loca).unwrap(), fmt == LocaFormat::Long, &[0, g2.bbox[0]]))
+        // lsb = xMin - shift: the scaler translates the outline by xMin - lsb = shift (as FreeType does)
+        Ok(minimal_font(&write_fonts::dump_table(&glyf).unwrap(), &write_fonts::dump_table(&loca).unwrap(), fmt == LocaFormat::Long,
+                        &[0, g2.bbox[0] - shift, comp.bbox[0].wrapping_sub(711)]))
     });
-    let key = format!("drawpts-{:016x}", fnv(format!("{:?}", contours).as_bytes()));
+    let key = format!("drawpts-{:016x}", fnv(format!("{:?}{}", contours, shift).as_bytes()));
+    cx.st.count(if shift == 0 { "br.draw_lsb_eq_xmin" } else { "br.draw_lsb_ne_xmin" });
     let font = match font {
         Ok(Ok(f)) => f,
         other => {
@@ -1504,6 +1614,7 @@ fn do_draw_points(cx: &mut Ctx, contours: &[Vec<Pt>], model: bool) {
             return;
         }
     };
+    check_memory_independence(cx, &font, 3, fnv(key.as_bytes()), &key);
     for harfbuzz in [false, true] {
         cx.st.evaluations += 1;
         let fb = font.clone();
@@ -1518,6 +1629,17 @@ fn do_draw_points(cx: &mut Ctx, contours: &[Vec<Pt>], model: bool) {
         let mut want = vec![];
         for c in contours {
             ref_contour_path(c, harfbuzz, &mut want);
+        }
+        // translate the reference by -(xMin - lsb) (x operands of every command, half units)
+        {
+            let mut i = 0;
+            while i < want.len() {
+                let k = match want[i] { 0 | 1 => 1, 2 => 2, _ => 0 };
+                for j in 0..k {
+                    want[i + 1 + 2 * j] -= 2 * shift as i128;
+                }
+                i += 1 + 2 * k;
+            }
         }
         let got: Vec<i128> = match &drawn {
             Ok(Ok(v)) => v.clone(),
@@ -1545,6 +1667,7 @@ fn do_draw_points(cx: &mut Ctx, contours: &[Vec<Pt>], model: bool) {
                 ys.iter().map(|v| *v as i128).collect(),
                 contours.iter().flatten().map(|p| p.2 as i128).collect(),
                 vec![harfbuzz as i128],
+                vec![shift as i128],
             ];
             cx.push(6, &ins, &[got]);
         }
@@ -1557,6 +1680,17 @@ fn do_draw(cx: &mut Ctx, rng: &mut Rng, n_fonts: usize) {
     for _ in 0..n_fonts {
         let paths: Vec<kurbo::BezPath> = (0..rng.range(1, 5)).map(|_| gen_path(rng)).collect();
         let paths2 = paths.clone();
+        // hmtx lsb = xMin - shift (shift 0 half of the time): the outline is drawn translated by -shift
+        let shifts: Vec<i16> = paths
+            .iter()
+            .map(|_| match rng.below(6) {
+                0 | 1 | 2 => 0,
+                3 => rng.range(-9, 9) as i16,
+                4 => rng.range(-2000, 2000) as i16,
+                _ => *rng.pick(&[1i16, -1, 711, -711]),
+            })
+            .collect();
+        let shifts2 = shifts.clone();
         let r = catch(move || -> Result<(Vec<u8>, Vec<bool>), String> {
             let mut b = GlyfLocaBuilder::new();
             let mut ok = vec![];
@@ -1568,7 +1702,7 @@ fn do_draw(cx: &mut Ctx, rng: &mut Rng, n_fonts: usize) {
                         b.add_glyph(&g).map_err(|e| format!("{e:?}"))?;
                         // left side bearing = xMin, as a consistent font has it (otherwise the
                         // scaler shifts the outline by xMin - lsb, as FreeType does)
-                        lsbs.push(g.bbox.x_min);
+                        lsbs.push(g.bbox.x_min.saturating_sub(shifts2[ok.len()]));
                         ok.push(true);
                     }
                     Err(_) => {
@@ -1604,6 +1738,7 @@ fn do_draw(cx: &mut Ctx, rng: &mut Rng, n_fonts: usize) {
             }
             Ok(Ok(v)) => v,
         };
+        check_memory_independence(cx, &font_bytes, paths.len() as u32 + 1, fnv(&font_bytes), &format!("{:016x}", fnv(format!("{:?}", paths).as_bytes())));
         for (i, p) in paths.iter().enumerate() {
             do_frontend(cx, p);
             if !ok[i] {
@@ -1626,7 +1761,12 @@ fn do_draw(cx: &mut Ctx, rng: &mut Rng, n_fonts: usize) {
                 Ok(Err(e)) => cx.fail(key, "drawing failed", json!({"err": e, "path": p.to_svg()})),
                 Ok(Ok(pen)) => {
                     cx.st.count("draw.glyphs");
-                    let want = normalise(&path_segments(p));
+                    let dx = shifts[i] as f64;
+                    let tr = |q: (f64, f64)| (q.0 - dx, q.1);
+                    let want: Vec<Vec<Seg>> = normalise(&path_segments(p))
+                        .into_iter()
+                        .map(|c| c.into_iter().map(|sg| match sg { Seg::L(a, b) => Seg::L(tr(a), tr(b)), Seg::Q(a, b, c2) => Seg::Q(tr(a), tr(b), tr(c2)) }).collect())
+                        .collect();
                     let got = normalise(&pen.contours);
                     let nsub = want.len();
                     if pen.cubic || pen.open || pen.moves != nsub || pen.closes != nsub {
@@ -1707,7 +1847,7 @@ fn main() {
         cx.st.count(&format!("br.instr_len_{}", n));
     }
     // contour-count assert and 65535/65536 points: implementation only (too large for the shards)
-    for nc in [32766usize, 32767] {
+    for nc in [32766usize, 32767, 32768, 40000, 65536] {
         let g = SG { bbox: [0; 4], contours: (0..nc).map(|i| vec![((i % 100) as i16, 0, true)]).collect(), instr: vec![] };
         do_simple(&mut cx, &g, false, None);
         cx.st.count(&format!("br.contours_{}", nc));
@@ -1896,13 +2036,25 @@ fn main() {
     // fixed: two all-off-curve squares; first contour starts off-curve with last on / last off
     let sq = |o: i16, on_last: bool| -> Vec<Pt> { vec![(o, 0, false), (o + 10, 0, false), (o + 10, 10, false), (o, 10, on_last)] };
     for (a, b) in [(false, false), (true, false), (false, true), (true, true)] {
-        do_draw_points(&mut cx, &[sq(0, a), sq(100, b)], true);
-        do_draw_points(&mut cx, &[sq(0, a), vec![(50, 50, true), (60, 61, false), (71, 50, true)], sq(-101, b)], true);
+        do_draw_points(&mut cx, &[sq(0, a), sq(100, b)], 0, true);
+        do_draw_points(&mut cx, &[sq(0, a), sq(100, b)], 37, true);
+        do_draw_points(&mut cx, &[sq(0, a), vec![(50, 50, true), (60, 61, false), (71, 50, true)], sq(-101, b)], -5, true);
     }
-    do_draw_points(&mut cx, &[vec![(5, 5, false)], vec![(1, 1, false), (3, 3, true)], vec![(7, 8, true)]], true);
+    do_draw_points(&mut cx, &[vec![(5, 5, false)], vec![(1, 1, false), (3, 3, true)], vec![(7, 8, true)]], 0, true);
     for _ in 0..(500 * scale) {
         let cs = gen_point_contours(&mut rng);
-        do_draw_points(&mut cx, &cs, true);
+        // left side bearing equal to xMin half of the time, otherwise off by a small or a large amount
+        let xmin = cs.iter().flatten().map(|p| p.0 as i32).min().unwrap();
+        let mut shift = match rng.below(6) {
+            0 | 1 | 2 => 0,
+            3 => rng.range(-9, 9) as i32,
+            4 => rng.range(-2000, 2000) as i32,
+            _ => *rng.pick(&[1i32, -1, 711, -711, 64, 32]),
+        };
+        if !(-32768..=32767).contains(&(xmin - shift)) {
+            shift = 0;
+        }
+        do_draw_points(&mut cx, &cs, shift as i16, true);
     }
 
     let shards = cx.cw.finish();
